@@ -8,6 +8,7 @@ import (
 	"go/types"
 	"math"
 	"strconv"
+	"strings"
 
 	"golang.org/x/tools/go/ssa"
 )
@@ -256,6 +257,21 @@ func registerLibraryModels() {
 		}
 		if e.decide(tt.Eq(x, tt.F64Const(math.Inf(1)))) {
 			return tt.F64Const(math.Inf(1))
+		}
+		// an answer of the environment (global random source, clock, ...) converted to a float: the environment is
+		// narrowed to three representative answers (1, a four-digit base-36 value, a value above 2^62), chosen by
+		// forking -- each is an answer the real environment can give, so a counterexample replays; stated as a bound
+		if x.Op == OSBVToFP && x.Args[0].Op == OVar && strings.HasPrefix(x.Args[0].Name, "env.") {
+			v := x.Args[0]
+			for _, c := range []int64{1, 46661, 1<<62 + 12345} {
+				if e.decide(tt.Eq(v, tt.IntConst(c, v.Sort.W))) {
+					e.x.mu.Lock()
+					e.x.bounds["environment answers narrowed to {1, 46661, 2^62+12345} where their logarithm is taken"] = 1
+					e.x.mu.Unlock()
+					return tt.F64Const(math.Log(float64(c)))
+				}
+			}
+			panic(pathEnd{kind: "assume"})
 		}
 		e.unsupported("math.Log of a positive symbolic value")
 		return nil
